@@ -24,6 +24,7 @@ LISTS = {
     'chain_obs': [['C1', 'A1'], ['D1', 'B1', 'A2'], ['A1:B2', 'C1'], ['A:A', 'B2']],
     'nested_obs': [['D1', 'A2'], ['B2', 'C1', 'B1'], ['B:B', 'D1'], ['A1:D2', 'C2']],
     'cse_obs': [['D2', 'E1'], ['D1:E2', 'A1'], ['D:D', 'D1']],
+    'offset_obs': [['C4', 'B3'], ['B:B', 'C3'], ['3:3', 'B1:B4']],
     'cse_opq': [['D2', 'B1'], ['B1:B3', 'D3'], ['D1:D3', 'B2']],
     'table_opq': [['B3', 'C2'], ['A2:B4', 'B2'], ['B4', 'B2', 'B3']],
 }
@@ -150,12 +151,14 @@ def run(tier, seed):
         for name in ('chain_obs', 'nested_obs', 'cse_obs'):
             for src in ('NoData', 'Stored'):
                 jobs.append((name, [2], ['A1'], src, seed, 120))
+        jobs.append(('offset_obs', [2], ['B3'], 'NoData', seed, 120))
         jobs.append(('cse_opq', [2], ['A1'], 'NoData', seed, 120))
         jobs.append(('table_opq', [5], ['A2'], 'NoData', seed, 120))
     else:
         for name in W.WORKBOOKS_OBS:
             for src in ('NoData', 'Stored', 'Loaded'):
-                jobs.append((name, [2], ['A1'], src, seed, 720))
+                jobs.append((name, [2], ['B3'] if name == 'offset_obs' else ['A1'], src,
+                             seed, 720))
         for name in W.WORKBOOKS_OPAQUE:
             for src in ('NoData', 'Loaded'):
                 jobs.append((name, [2, 'a'], None, src, seed, 720))
